@@ -35,6 +35,8 @@ def int_term(v):
         return v.t
     if isinstance(v, SBool):
         return z3.If(v.t, z3.IntVal(1), z3.IntVal(0))
+    if isinstance(v, z3.ArithRef):
+        return v
     raise TypeError('int expected, got %r' % (v,))
 
 
@@ -104,6 +106,13 @@ def _pos_divisor(ctx, b):
     return t
 
 
+def _div(t, d):
+    """floor division by a positive divisor; (x div c1) div c2 is normalised to x div (c1*c2)"""
+    if z3.is_int_value(d) and z3.is_app_of(t, z3.Z3_OP_IDIV) and z3.is_int_value(t.arg(1)) and t.arg(1).as_long() > 0:
+        return t.arg(0) / z3.IntVal(t.arg(1).as_long() * d.as_long())
+    return t / d
+
+
 def _is_pow2(n):
     return n > 0 and n & (n - 1) == 0
 
@@ -118,7 +127,7 @@ def int_binop(ctx, op, a, b):
         return wrap_int(ta * tb)
     if op == 'FloorDiv':
         d = _pos_divisor(ctx, b)
-        return wrap_int(ta / d)
+        return wrap_int(_div(ta, d))
     if op == 'Mod':
         d = _pos_divisor(ctx, b)
         return wrap_int(ta % d)
@@ -137,7 +146,7 @@ def int_binop(ctx, op, a, b):
             b = ctx.concretize(tb, limit=600, what='shift amount')
         if b < 0:
             pyraise(ValueError, 'negative shift count')
-        return wrap_int(ta / z3.IntVal(2 ** b))
+        return wrap_int(_div(ta, z3.IntVal(2 ** b)))
     if op == 'LShift':
         if not isinstance(b, int):
             b = ctx.concretize(tb, limit=600, what='shift amount')
@@ -380,7 +389,7 @@ def seq_index(ctx, v, i):
         pyraise(IndexError, 'index out of range')
     e = v.seq[_simplify(idx)]
     if isinstance(v, SBytes):
-        ctx.fact(z3.And(e >= 0, e <= 255))
+        ctx.byte_fact(e)
         return wrap_int(e)
     return _char(wrap_int(e))
 
@@ -414,26 +423,94 @@ def seq_slice(ctx, v, lo, hi, step):
         l = ctx.concretize(tl, limit=600, what='slice bound')
         h = ctx.concretize(th, limit=600, what='slice bound')
         return _mk_like(v, items=v.items[l:h])
-    # symbolic length: exact syntactic slicing when the bounds fall into explicit leading/trailing items
-    lead, trail = v.lead(), v.trail()
+    # symbolic length: exact syntactic slicing where the bounds fall on explicit items / part boundaries
+    trail = v.trail()
     lo0 = 0 if lo is None else lo
-    if isinstance(lo0, int) and lo0 >= 0 and lo0 <= len(lead):
-        if isinstance(hi, int) and 0 <= hi <= len(lead):
-            return _mk_like(v, items=lead[lo0:hi])
-        if hi is None:
-            return _mk_like(v, parts=[lead[lo0:]] + v.parts[1 if lead else 0:])
-        if isinstance(hi, int) and hi < 0 and -hi <= len(trail):
-            mid = v.parts[1 if lead else 0:len(v.parts) - 1]
-            return _mk_like(v, parts=[lead[lo0:]] + mid + [trail[:len(trail) + hi]])
+    if not isinstance(lo0, int):
+        # a symbolic lower bound that is exactly the length of some leading parts
+        tlo = _simplify(int_term(lo0))
+        acc = z3.IntVal(0)
+        for k, p in enumerate(v.parts):
+            acc = _simplify(acc + (len(p) if isinstance(p, list) else p.len))
+            if acc.eq(tlo):
+                rest = type(v)(parts=v.parts[k + 1:]) if v.parts[k + 1:] else type(v)(items=[])
+                hi2 = None
+                if hi is not None:
+                    d = _simplify(int_term(hi) - tlo)
+                    hi2 = d.as_long() if z3.is_int_value(d) else SInt(d)
+                    if isinstance(hi2, int) and hi2 < 0:
+                        hi2 = 0
+                    if isinstance(hi2, SInt):
+                        if not (ctx.check(z3.Not(tlo >= 0)) == z3.unsat and ctx.check(z3.Not(int_term(hi) >= 0)) == z3.unsat):
+                            break
+                if ctx.check(z3.Not(tlo >= 0)) != z3.unsat:
+                    break
+                return seq_slice(ctx, rest if rest.items is None else _mk_like(v, items=rest.items), 0, hi2, None)
+    if isinstance(lo0, int) and lo0 >= 0 and (hi is None or (isinstance(hi, int) and hi >= 0)):
+        got = _slice_parts(ctx, v, list(v.parts), lo0, hi)
+        if got is not None:
+            return _mk_like(v, parts=got)
+    if isinstance(lo0, int) and lo0 >= 0 and isinstance(hi, int) and hi < 0 and -hi <= len(trail):
+        parts = list(v.parts)
+        parts[-1] = trail[:len(trail) + hi]
+        got = _slice_parts(ctx, v, parts, lo0, None)
+        if got is not None:
+            return _mk_like(v, parts=got)
     if isinstance(lo0, int) and lo0 < 0 and -lo0 <= len(trail) and (hi is None or (isinstance(hi, int) and hi < 0 and hi >= lo0)):
         return _mk_like(v, items=trail[lo0:hi])
-    n = _simplify(v.length())
+    return _general_slice(ctx, v, lo, hi)
+
+
+def _general_slice(ctx, v, lo, hi):
+    n = _simplify(int_term(v.length()))
     tl = z3.IntVal(0) if lo is None else _clamp(int_term(lo), n)
     th = n if hi is None else _clamp(int_term(hi), n)
     ln = _simplify(z3.If(th - tl < 0, z3.IntVal(0), th - tl))
-    sub = _simplify(z3.SubSeq(v.seq, tl, ln))
-    ctx.couple(v.seq, n)
-    return _mk_like(v, parts=[SeqPart(sub, ln.as_long() if z3.is_int_value(ln) else ln)])
+    whole = v.seq_term()
+    sub = _simplify(z3.SubSeq(whole, tl, ln))
+    ctx.couple(whole, n)
+    if z3.is_int_value(ln):
+        # concrete length: explicit items
+        k = ln.as_long()
+        items = []
+        for i in range(k):
+            e = _simplify(whole[_simplify(tl + i)])
+            if isinstance(v, SBytes):
+                ctx.byte_fact(e)
+            items.append(e.as_long() if z3.is_int_value(e) else e)
+        return _mk_like(v, items=items)
+    return _mk_like(v, parts=[SeqPart(sub, ln)])
+
+
+def _slice_parts(ctx, v, parts, lo, hi):
+    """parts[lo:hi] for concrete lo >= 0, hi >= 0 or None; None if not expressible part-wise"""
+    out = []
+    while parts:
+        p = parts[0]
+        if hi is not None and hi <= 0:
+            return out
+        if isinstance(p, list):
+            n = len(p)
+            if lo >= n:
+                lo -= n
+                hi = None if hi is None else hi - n
+                parts = parts[1:]
+                continue
+            out.append(p[lo:hi])
+            hi = None if hi is None else hi - n
+            lo = 0
+            parts = parts[1:]
+            continue
+        # symbolic part
+        if lo == 0 and hi is None:
+            out.extend(parts)
+            return out
+        rest = type(v)(parts=parts)
+        r = _general_slice(ctx, rest, lo, hi)
+        r = as_sseq(r)
+        out.extend(r.parts)
+        return out
+    return out
 
 
 def to_items(ctx, v, limit=600):
@@ -446,7 +523,7 @@ def to_items(ctx, v, limit=600):
     for i in range(n):
         e = _simplify(v.seq[i])
         if isinstance(v, SBytes):
-            ctx.fact(z3.And(e >= 0, e <= 255))
+            ctx.byte_fact(e)
         items.append(e.as_long() if z3.is_int_value(e) else e)
     return type(v)(items=items)
 
